@@ -422,6 +422,23 @@ def run_reset_case(case):
                 if got != want:
                     how = f"'{case['midcmd']}' (answered {info.get('midcmd_reply')}) was sent on the control channel in mid-upload, data then closed normally" if case.get("midcmd") else "data connection reset by the peer"
                     viol.append({"clause": "completion-reply-for-truncated-upload", "subject": verb + (":midcmd" if case.get("midcmd") else ""), "detail": f"{how}; server replied {replies} but stored {None if got is None else len(got)} of {len(want)} bytes"})
+            if (case.get("midcmd") or "").startswith("REST") and info.get("midcmd_reply") == "350" and info.get("completed"):
+                # the REST answered in mid-upload belongs to the next transfer: a download over the
+                # same listener, sent right after the upload's completion reply, starts there
+                off = int(case["midcmd"].split()[1])
+                try:
+                    await peer.data_connect()
+                    code, _ = await peer.cmd("RETR /d/new" if verb == "STOR" else "RETR /d/old")
+                    if code[0] == "1":
+                        got2, _how = await peer.recv_all(timeout=100.0)
+                        peer.data_close()
+                        fin2 = (await peer.reply(100.0))[0]
+                        whole = snap.get("/d/new") if verb == "STOR" else snap.get("/d/old")
+                        info["rest_followup"] = 1
+                        if fin2[0] == "2" and whole is not None and got2 != whole[off:]:
+                            viol.append({"clause": "downloaded-bytes-differ", "subject": "retr:rest-sent-in-mid-upload", "detail": f"'{case['midcmd']}' (350) was sent while the {verb} was running, the RETR right after its completion reply delivered {len(got2)} bytes, expected the {len(whole) - off} bytes from offset {off}"})
+                except (OSError, ReplyTimeout, PeerGone):
+                    pass
             peer.close()
             await asyncio.sleep(1)
             await common.close_server(server)
@@ -437,7 +454,7 @@ def run_reset_case(case):
             "events": world.net.seq,
             "steps": world.loop.steps,
             "outcome": world.outcome,
-            "counters": {"faults.data_reset_mid_upload": int(not case.get("midcmd")), "probe.command_in_mid_upload": int(bool(info.get("midcmd_reply"))), "probe.completion_after_reset": int(bool(info.get("completed")))},
+            "counters": {"faults.data_reset_mid_upload": int(not case.get("midcmd")), "probe.command_in_mid_upload": int(bool(info.get("midcmd_reply"))), "probe.completion_after_reset": int(bool(info.get("completed"))), "probe.rest_in_mid_upload_then_download": info.get("rest_followup", 0)},
             "violations": _dedupe(viol),
         }
         if case.get("want_sample"):
@@ -553,7 +570,7 @@ def _dedupe(viol):
 def gen_reset_case(seed):
     rnd = random.Random(seed * 4243 + 1)
     b = rnd.choice([7, 16, 64, 100])
-    return {"mode": "reset", "seed": seed, "B": b, "len": rnd.choice([b, 3 * b + 1, 10 * b, 40 * b]), "chunk": rnd.choice([1, b, 3 * b, 1 << 20]), "drain": rnd.random() < 0.6, "pause": rnd.choice([0, 0, 0.0005, 0.01]), "verb": rnd.choice(["STOR", "APPE"]), "slow_server": rnd.random() < 0.5, "fs_delay": rnd.choice([None, [0.0005, 0.004]]), "passive": rnd.choice(["EPSV", "PASV"]), "midcmd": rnd.choice([None, None, "EPSV", "PASV", "NOOP", "PWD", "TYPE I", "MLST /d"])}
+    return {"mode": "reset", "seed": seed, "B": b, "len": rnd.choice([b, 3 * b + 1, 10 * b, 40 * b]), "chunk": rnd.choice([1, b, 3 * b, 1 << 20]), "drain": rnd.random() < 0.6, "pause": rnd.choice([0, 0, 0.0005, 0.01]), "verb": rnd.choice(["STOR", "APPE"]), "slow_server": rnd.random() < 0.5, "fs_delay": rnd.choice([None, [0.0005, 0.004]]), "passive": rnd.choice(["EPSV", "PASV"]), "midcmd": rnd.choice([None, None, "EPSV", "PASV", "NOOP", "PWD", "TYPE I", "MLST /d", "REST 3", "REST 3"])}
 
 
 def confirm(case, violation):
